@@ -17,6 +17,7 @@ Template directives (all start with //@ at the beginning of a line):
        //@subst /REGEX/ => REPL     unit-specific token rewrite (R3 generic instantiation, receiver renames); recorded
        //@contract                  following lines = requires/ensures clauses placed between signature and body
        //@loop N                    following lines = invariant/decreases clauses for the N-th loop (0-based, textual order)
+       //@loop? N                   same, but dropped silently when the body has no N-th loop any more
        //@after /REGEX/             following lines inserted after the (single) body line matching REGEX
        //@before /REGEX/ [#K]       following lines inserted before the (single, or K-th) body line matching REGEX
        //@no-twin                   no vacuity twin (trait-impl methods cannot get one: the contract is on the trait)
@@ -137,7 +138,7 @@ def apply_global_rewrites(text, keep_panics=False, keep_minmax=False):
 LOOP_KW = re.compile(r'\b(for|while|loop)\b')
 
 
-def attach_loops(body, loops, report):
+def attach_loops(body, loops, report, optional=frozenset()):
     """body: function/range body text. loops: {ordinal: clause_text}. Loops are numbered in textual order."""
     m = mask(body)
     pos = 0
@@ -164,6 +165,10 @@ def attach_loops(body, loops, report):
         found.append((mm.start(), mm.end(), kw, k))
     out = body
     for ordinal in sorted(loops, reverse=True):
+        if ordinal >= len(found) and ordinal in optional:
+            # `//@loop? N`: the loop contract is dropped with its loop (a body without the loop is still decided)
+            loops = {k: v for k, v in loops.items() if k != ordinal}
+            continue
         if ordinal >= len(found):
             raise AnchorError(f'loop ordinal {ordinal} not found (body has {len(found)} loops)')
     for ordinal in range(len(found) - 1, -1, -1):
@@ -334,7 +339,8 @@ def process_block(kind, header, dirs, report):
     sig = '\n'.join(d[1] for d in dirs if d[0] == 'sig')
     substs = [(d[1], d[0] == 'subst?') for d in dirs if d[0] in ('subst', 'subst?')]
     contract = '\n'.join(d[2] for d in dirs if d[0] == 'contract')
-    loops = {int(d[1]): d[2] for d in dirs if d[0] == 'loop'}
+    loops = {int(d[1]): d[2] for d in dirs if d[0] in ('loop', 'loop?')}
+    optional_loops = {int(d[1]) for d in dirs if d[0] == 'loop?'}
     def parse_hint(a):
         mm = re.match(r'^(/.*/)\s+#(\d+)\s*$', a.strip())
         return (parse_rx(mm.group(1)), int(mm.group(2))) if mm else parse_rx(a)
@@ -408,7 +414,7 @@ def process_block(kind, header, dirs, report):
     if prologue and kind == 'fn':
         body = body[0] + '\n' + prologue + body[1:]
         entry['rewrites']['SIG pattern parameters bound by a prologue `let`'] = 1
-    body, nloops = attach_loops(body, loops, entry)
+    body, nloops = attach_loops(body, loops, entry, optional_loops)
     entry['loops'] = nloops
     entry['loops_with_contract'] = sorted(loops)
     if kind == 'fn':
@@ -482,7 +488,7 @@ def generate(template_path):
                     key, arg = d.group(1), d.group(2)
                     if key in ('sig', 'subst', 'subst?', 'keep-panics', 'keep-minmax', 'no-twin'):
                         dirs.append([key, arg]); cur = None
-                    elif key in ('contract', 'loop', 'after', 'before', 'after?', 'before?', 'prologue'):
+                    elif key in ('contract', 'loop', 'loop?', 'after', 'before', 'after?', 'before?', 'prologue'):
                         cur = [key, arg, '']
                         dirs.append(cur)
                     else:
